@@ -9,6 +9,7 @@
 //  4 getEvent policy taking its parameters BY VALUE, prototype void(Ev, Val)
 //  5 enum class key, prototype void(Color, Val), ArgumentPassingIncludeEvent
 //  7 event excluded from the prototype AND a non-identity getEvent policy: prototype void(Val), getEvent(code, val) = code >> 8
+//  8 int key, prototype void(int, Val &): listeners modify the argument; the next listener and the caller see the modification
 //  6 std::string key by value, prototype void(std::string, uint32_t) (thorough)
 // MAPK: 0 default map, 1 std::map, 2 std::unordered_map.
 // Keys are symbolic: three registered keys k1,k2,k3 and a dispatched key kd -- the solver partitions them into
@@ -82,6 +83,8 @@ using Key = uint32_t; struct Pol : PolBase { static uint32_t getEvent(const Ev &
 using Key = uint32_t; struct Pol : PolBase { static uint32_t getEvent(Ev e, Val v) { (void)v; return e.type; } }; using D = DTYPE<Key, void(Ev, Val), Pol>;
 #elif CFG == 7
 using Key = uint32_t; struct Pol : PolBase { using ArgumentPassingMode = eventpp::ArgumentPassingExcludeEvent; static uint32_t getEvent(uint32_t code, const Val &) { return code >> 8; } }; using D = DTYPE<Key, void(Val), Pol>;
+#elif CFG == 8
+using Key = int; struct Pol : PolBase {}; using D = DTYPE<Key, void(int, Val &), Pol>;
 #elif CFG == 5
 using Key = Color; struct Pol : PolBase { using ArgumentPassingMode = eventpp::ArgumentPassingIncludeEvent; }; using D = DTYPE<Key, void(Color, Val), Pol>;
 #else
@@ -127,6 +130,9 @@ static void add_listeners(D & d, const Key & k, uint32_t base)
 #if CFG == 0
 	d.appendListener(k, [base](int e, Val v) { rec(base, (uint32_t)e, v.x, v.state); Val sink(std::move(v)); (void)sink; });     // by value, and consumes its copy
 	d.appendListener(k, [base](int e, const Val & v) { rec(base + 1, (uint32_t)e, v.x, v.state); });
+#elif CFG == 8
+	d.appendListener(k, [base](int e, Val & v) { rec(base, (uint32_t)e, v.x, v.state); v.x += 1u; });
+	d.appendListener(k, [base](int e, Val & v) { rec(base + 1, (uint32_t)e, v.x, v.state); v.x += 1u; });
 #elif CFG == 1 || CFG == 7
 	d.appendListener(k, [base](Val v) { rec(base, g_expect_key, v.x, v.state); Val sink(std::move(v)); (void)sink; });
 	d.appendListener(k, [base](const Val & v) { rec(base + 1, g_expect_key, v.x, v.state); });
@@ -163,11 +169,24 @@ extern "C" void harness()
 	add_listeners(*d, mk(k1), 10);
 	add_listeners(*d, mk(k2), 20);                  // appended to the same list when k2 == k1
 	if(k1 == k2) vf_cover(COV_DUP_KEYS);
+	// per event, listener management describes exactly that event's list
+	{
+		vf_assert(d->hasAnyListener(mk(k1)) && d->hasAnyListener(mk(k2)), 211);
+		vf_assert(d->hasAnyListener(mk(kd)) == (kd == k1 || kd == k2), 212);
+		int n1 = 0; d->forEach(mk(k1), [&](const D::Handle &, const D::Callback &) { n1++; });
+		vf_assert(n1 == (k1 == k2 ? 4 : 2), 213);
+	}
 	g_tr.clear(); g_ok = true; g_expect_key = kd; g_expect_val = val;
+#if CFG == 8
+	unsigned form = 1; vf_cover(COV_TEMPORARY);
+#else
 	unsigned form = vf_choose(2);
+#endif
 	if(form == 0) {                                  // arguments from temporaries
 		vf_cover(COV_TEMPORARY);
-#if CFG == 0 || CFG == 5
+#if CFG == 8
+		(void)0;
+#elif CFG == 0 || CFG == 5
 		d->DISPATCH_FN(mk(kd), Val(val));
 #elif CFG == 1
 		d->DISPATCH_FN(mk(kd), Val(val));
@@ -182,7 +201,10 @@ extern "C" void harness()
 	else {                                           // arguments from lvalues, which must stay intact
 		vf_cover(COV_LVALUE);
 		Key key = mk(kd); Val v(val);
-#if CFG == 7
+#if CFG == 8
+		d->DISPATCH_FN(key, v);
+		{ uint32_t hits = (k1 == kd ? 2u : 0u) + (k2 == kd ? 2u : 0u); vf_assert(v.x == val + hits && v.state == 1, 210); }   // the caller sees every listener's modification
+#elif CFG == 7
 		uint32_t code = (kd << 8) | 0xa5u;
 		d->DISPATCH_FN(code, v);
 		vf_assert(v.x == val && v.state == 1, 200);
@@ -212,7 +234,11 @@ extern "C" void harness()
 	vf_assert(g_tr.n == k, 205);                     // and no listener of another event
 	for(int i = 0; i < g_tr.n && i < k; i++) {
 		vf_assert(g_tr.e[i].a == kd, 206);           // event value as seen by the listener
+#if CFG == 8
+		vf_assert(g_tr.e[i].b == val + (uint32_t)i, 207);   // each listener sees the modifications of the listeners before it
+#else
 		vf_assert(g_tr.e[i].b == val, 207);          // payload intact for every listener, also after a by-value listener consumed its copy
+#endif
 		vf_obs(1, g_tr.e[i].id);
 	}
 	vf_assert(g_ok, 208);                            // no listener saw a moved-from argument
